@@ -499,3 +499,13 @@ func Finish(r *Report, c *Ctx, verifDir, tier string, seed int64, t0 time.Time, 
 	}
 	return out
 }
+
+// OKOnce records a discharged obligation unless one with the same rule and key exists already.
+func (r *Report) OKOnce(rule, key, pos, detail string) {
+	for _, o := range r.Obls {
+		if o.Key == rule+":"+key {
+			return
+		}
+	}
+	r.OK(rule, key, pos, detail)
+}
